@@ -27,7 +27,10 @@ def load():
         sys.path.insert(0, REPO)
     # Library warnings (deprecations, numpy 0/0) must never abort or pollute a run.
     warnings.simplefilter("ignore")
-    logging.getLogger("robotools").setLevel(logging.CRITICAL)
+    lg = logging.getLogger("robotools")
+    lg.setLevel(logging.CRITICAL)
+    lg.addHandler(logging.NullHandler())
+    lg.propagate = False
     import robotools  # noqa
 
     f = os.path.realpath(robotools.__file__)
@@ -67,3 +70,9 @@ def clear_function_caches():
             f.cache_clear()
         except Exception:  # noqa
             pass
+
+
+def set_debug_logging(on):
+    """the user script's logging configuration: DEBUG for the library's loggers (records go to a null handler) or,
+    by default, nothing below CRITICAL. A knob of the world, set at the start of every simulated run."""
+    logging.getLogger("robotools").setLevel(logging.DEBUG if on else logging.CRITICAL)
